@@ -116,14 +116,15 @@ fn binary_cases(tier: Tier) -> Vec<Scenario> {
         JoinHashInner,
         JoinHashOuter,
         JoinSortMergeLeft,
+        JoinSortMergeOuter,
         KeyedOuter,
         Zip,
         Merge,
     }
-    for op in [Op2::JoinHashInner, Op2::JoinHashOuter, Op2::JoinSortMergeLeft, Op2::KeyedOuter, Op2::Zip, Op2::Merge] {
+    for op in [Op2::JoinHashInner, Op2::JoinHashOuter, Op2::JoinSortMergeLeft, Op2::JoinSortMergeOuter, Op2::KeyedOuter, Op2::Zip, Op2::Merge] {
         for l1 in &lists {
             for r1 in &lists {
-                for (l2, r2) in [(vec![(0i64, 7i64)], vec![(0i64, 8i64)]), (vec![(1, 7)], vec![])] {
+                for (l2, r2) in [(vec![(0i64, 7i64)], vec![(0i64, 8i64)]), (vec![(1, 7)], vec![]), (vec![], vec![(1, 8)]), (vec![(0, 7)], vec![(1, 8)]), (vec![], vec![(0, 8)])] {
                     let (l1, r1) = (l1.clone(), r1.clone());
                     let name = format!("C05/binary/{:?}/L{:?}R{:?}-then-L{:?}R{:?}", op, l1, r1, l2, r2).replace(' ', "");
                     let descr = format!("{:?}: iteration 1 left {:?} right {:?}, iteration 2 left {:?} right {:?}; every interleaving of the two sides", op, l1, r1, l2, r2);
@@ -147,6 +148,7 @@ fn binary_cases(tier: Tier) -> Vec<Scenario> {
                             Op2::JoinHashInner => norm(&drive_binary(s1.join_with(s2, k, k).ship_hash().local_hash().inner().map(|(_, (l, r))| (Some(l.1), Some(r.1))).unkey().map(|x: (i64, P)| x.1).verif_into_chain(), vec![lb], vec![rb])),
                             Op2::JoinHashOuter => norm(&drive_binary(s1.join_with(s2, k, k).ship_hash().local_hash().outer().map(|(_, (l, r))| (l.map(|x| x.1), r.map(|x| x.1))).unkey().map(|x: (i64, P)| x.1).verif_into_chain(), vec![lb], vec![rb])),
                             Op2::JoinSortMergeLeft => norm(&drive_binary(s1.join_with(s2, k, k).ship_hash().local_sort_merge().left().map(|(_, (l, r))| (Some(l.1), r.map(|x| x.1))).unkey().map(|x: (i64, P)| x.1).verif_into_chain(), vec![lb], vec![rb])),
+                            Op2::JoinSortMergeOuter => norm(&drive_binary(s1.join_with(s2, k, k).ship_hash().local_sort_merge().outer().map(|(_, (l, r))| (l.map(|x| x.1), r.map(|x| x.1))).unkey().map(|x: (i64, P)| x.1).verif_into_chain(), vec![lb], vec![rb])),
                             Op2::KeyedOuter => norm(&drive_binary(s1.to_keyed().join_outer(s2.to_keyed()).unkey().map(|x: (i64, P)| x.1).verif_into_chain(), vec![lb], vec![rb])),
                             Op2::Zip => norm(&drive_binary(s1.zip(s2).map(|(a, b)| (Some(a.1), Some(b.1))).verif_into_chain(), vec![lb], vec![rb])),
                             Op2::Merge => norm(&drive_binary(s1.merge(s2).map(|a| (Some(a.1), None::<i64>)).verif_into_chain(), vec![lb], vec![rb])),
@@ -163,7 +165,7 @@ fn binary_cases(tier: Tier) -> Vec<Scenario> {
                         let reference = |l: &Vec<(i64, i64)>, r: &Vec<(i64, i64)>| -> Vec<Vec<i64>> {
                             let mut v: Vec<P> = vec![];
                             match op {
-                                Op2::JoinHashInner | Op2::JoinHashOuter | Op2::JoinSortMergeLeft | Op2::KeyedOuter => {
+                                Op2::JoinHashInner | Op2::JoinHashOuter | Op2::JoinSortMergeLeft | Op2::JoinSortMergeOuter | Op2::KeyedOuter => {
                                     for a in l {
                                         let mut m = false;
                                         for b in r {
@@ -176,7 +178,7 @@ fn binary_cases(tier: Tier) -> Vec<Scenario> {
                                             v.push((Some(a.1), None));
                                         }
                                     }
-                                    if matches!(op, Op2::JoinHashOuter | Op2::KeyedOuter) {
+                                    if matches!(op, Op2::JoinHashOuter | Op2::JoinSortMergeOuter | Op2::KeyedOuter) {
                                         for b in r {
                                             if !l.iter().any(|a| a.0 == b.0) {
                                                 v.push((None, Some(b.1 + 100)));
